@@ -80,6 +80,13 @@ func aliasForType(t types.Type, names map[string]string) (string, bool) {
 	if n, ok := names[ts]; ok {
 		return n, true
 	}
+	// an unexported defined type of the module over one of these (type outstandingRequestIDs []string; type requestID
+	// string) plays the role of what it is made of
+	if nm, ok := t.(*types.Named); ok && nm.Obj() != nil && !nm.Obj().Exported() && nm.Obj().Pkg() != nil && strings.HasPrefix(nm.Obj().Pkg().Path(), modPath) && !isSigReqType(t) {
+		if n, ok := names[types.TypeString(nm.Underlying(), func(pk *types.Package) string { return pk.Name() })]; ok {
+			return n, true
+		}
+	}
 	// a large value handed to an unexported helper by pointer instead of by value plays the same role
 	if pt, ok := t.Underlying().(*types.Pointer); ok {
 		if _, isStruct := pt.Elem().Underlying().(*types.Struct); isStruct {
@@ -1161,7 +1168,7 @@ func checkIDsForwarded(r *Report, m *spModel, rule string) {
 					continue
 				}
 				for i, arg := range ci.Common().Args {
-					if i >= len(callee.Params) || types.TypeString(callee.Params[i].Type(), nil) != "[]string" {
+					if i >= len(callee.Params) || types.TypeString(callee.Params[i].Type().Underlying(), nil) != "[]string" {
 						continue
 					}
 					n++
@@ -1297,34 +1304,50 @@ func checkMiddlewareIDs(r *Report, m *spModel, rule string) {
 		ids := cs.Instr.Common().Args[2]
 		// collect every append that feeds the slice (through phis and through module helpers that build it)
 		type site struct {
-			fn *ssa.Function
+			fc *FuncCtx
 			c  *ssa.Call
 		}
-		seen := map[ssa.Value]bool{}
+		type seenKey struct {
+			v  ssa.Value
+			fc *FuncCtx
+		}
+		seen := map[seenKey]bool{}
 		var appends []site
 		okShape := true
 		shapeWhy := "the ID slice has a source other than an empty literal extended by append"
-		var walk func(in *ssa.Function, v ssa.Value, depth int)
-		walk = func(in *ssa.Function, v ssa.Value, depth int) {
-			if seen[v] {
+		var walk func(fc *FuncCtx, v ssa.Value, depth int)
+		walk = func(fc *FuncCtx, v ssa.Value, depth int) {
+			if seen[seenKey{v, fc}] {
 				return
 			}
-			seen[v] = true
+			seen[seenKey{v, fc}] = true
 			switch x := v.(type) {
 			case *ssa.Phi:
 				for _, e := range x.Edges {
-					walk(in, e, depth)
+					walk(fc, e, depth)
 				}
+			case *ssa.ChangeType:
+				// a defined slice type over []string (type requestIDList []string) converted at the boundary
+				walk(fc, x.X, depth)
+			case *ssa.Parameter:
+				// the list a building helper is handed (func (l requestIDList) with(id requestID) requestIDList): the
+				// caller's list
+				if av := fc.argVal[x]; av != nil && fc.parent != nil {
+					walk(fc.parent, av, depth)
+					return
+				}
+				okShape = false
 			case *ssa.Call:
 				if bi, ok := x.Call.Value.(*ssa.Builtin); ok && bi.Name() == "append" {
-					appends = append(appends, site{in, x})
-					walk(in, x.Call.Args[0], depth)
+					appends = append(appends, site{fc, x})
+					walk(fc, x.Call.Args[0], depth)
 					return
 				}
 				if scf := x.Call.StaticCallee(); scf != nil && p.InModule(scf) && len(scf.Blocks) > 0 && depth < 3 && scf.Signature.Results().Len() == 1 {
 					r.Fn(p.FnName(scf))
-					for _, ret := range a.Ctx(scf).Returns() {
-						walk(scf, ret.Results[0], depth+1)
+					sub := fc.inlineCtx(scf, x.Call.Args, x)
+					for _, ret := range sub.Returns() {
+						walk(sub, ret.Results[0], depth+1)
 					}
 					return
 				}
@@ -1351,7 +1374,7 @@ func checkMiddlewareIDs(r *Report, m *spModel, rule string) {
 				okShape = false
 			}
 		}
-		walk(fn, ids, 0)
+		walk(a.Ctx(fn), ids, 0)
 		cons := fmt.Sprintf("%s: outstanding request IDs passed to ParseResponse", p.FnName(fn))
 		if !okShape {
 			r.Bad(rule, cons, p.InstrPos(cs.Instr.(ssa.Instruction)), shapeWhy)
@@ -1359,16 +1382,36 @@ func checkMiddlewareIDs(r *Report, m *spModel, rule string) {
 		}
 		for _, st := range appends {
 			ap := st.c
-			fc := a.Ctx(st.fn)
+			fc := st.fc
 			fc.ensureConds()
+			// (the appended ID as the function that decides what is listed sees it: through the parameters of a building
+			// helper and through conversions of a defined string type)
 			v := appendedValue(ap)
-			c2 := fmt.Sprintf("%s: ID appended: %s", p.FnName(st.fn), fc.AP(v))
+			for i := 0; i < 4; i++ {
+				if cv, ok := v.(*ssa.ChangeType); ok {
+					v = cv.X
+					continue
+				}
+				if cv, ok := v.(*ssa.Convert); ok && isStringType(cv.X.Type()) && isStringType(cv.Type()) {
+					v = cv.X
+					continue
+				}
+				if prm, ok := v.(*ssa.Parameter); ok && fc.parent != nil && fc.argVal[prm] != nil {
+					v = fc.argVal[prm]
+					fc = fc.parent
+					fc.ensureConds()
+					continue
+				}
+				break
+			}
+			c2 := fmt.Sprintf("%s: ID appended: %s", p.FnName(fc.Fn), fc.AP(v))
+			condOf := st.fc.AbsCond(ap.Block())
 			switch {
 			case isEmptyStringConst(v):
 				// only under AllowIDPInitiated
 				okG := false
-				for _, nme := range B.Support(fc.Cond(ap.Block())) {
-					if strings.HasSuffix(nme, "AllowIDPInitiated") && fc.Implied(ap.Block(), B.Var(nme)) {
+				for _, nme := range B.Support(condOf) {
+					if strings.HasSuffix(nme, "AllowIDPInitiated") && B.Implies(condOf, B.Var(nme)) {
 						okG = true
 					}
 				}
